@@ -5,6 +5,7 @@
    anywhere). *)
 From Coq Require Import List ZArith Bool Arith.
 From Dae Require Import C15_Spec C15_Model C15_Proofs C15_Switch C15_SwitchProofs.
+From Dae Require C15_Ring.
 Import ListNotations.
 Open Scope Z_scope.
 
@@ -277,3 +278,24 @@ Theorem C15_foreign_notification_witness :
   let a := match g_sets g with Some s => s (DTcp, V4) | None => new_set SRandom end in
   map fst (a_entries a) = [1%nat] /\ a_idx a 0%nat = SAt 0 /\ a_idx a 1%nat = SAt 0 /\ a_idx a 2%nat = SNotAlive.
 Proof. exact C15_foreign_notification_witness_proof. Qed.
+
+(* ---- LatenciesN, the ring behind min_avg10 (C15_Ring.v) ----
+   for every ring size N > 0 and every sequence of appends: the running sum is the sum of the samples the ring holds,
+   it holds min(len, N) of them, and AvgLatency = that sum divided (truncating, as time.Duration divides) by their
+   number.  That the held samples are the LAST min(len, N) fed (spec_avg / spec_last of C15_Ring.v) is compared on
+   every run against both the ring model and the Go LatenciesN, not proved. *)
+Theorem C15_avg_ring_exact :
+  forall (n : nat) (h : list Z), (0 < n)%nat ->
+    let r := C15_Ring.ring_run n h in
+    C15_Ring.r_sum r = C15_Ring.zsum (C15_Ring.r_lats r) /\ C15_Ring.r_n r = n /\
+    (length (C15_Ring.r_lats r) <= n)%nat /\ (C15_Ring.r_head r < n)%nat /\
+    length (C15_Ring.r_lats r) = Nat.min (length h) n.
+Proof. exact C15_Ring.ring_sum_inv. Qed.
+Print Assumptions C15_avg_ring_exact.
+
+(* the subtract-after-advance variant is wrong: N = 2, samples 10, 20, 60: it keeps sum 70 for contents {60, 20} *)
+Theorem C15_avg_ring_bad_refuted :
+  let r := fold_left C15_Ring.ring_append_bad [10; 20; 60] (C15_Ring.ring0 2) in
+  C15_Ring.r_lats r = [60; 20] /\ C15_Ring.r_sum r = 70 /\ C15_Ring.zsum (C15_Ring.r_lats r) = 80 /\
+  C15_Ring.ring_avg (C15_Ring.ring_run 2 [10; 20; 60]) = Some 40 /\ C15_Ring.spec_avg 2 [10; 20; 60] = Some 40.
+Proof. exact C15_Ring.ring_bad_witness. Qed.
